@@ -191,7 +191,7 @@ func runC20(c *fw.Ctx) {
 		names = append(names, o.name)
 	}
 	c.Bound("ops", names)
-	c.SetRule("one repository instance (its storage keeps the index cache) over mcfs; all sequences up to depth over 11 worktree operations and 3 external rewrites of .git/index (new size+new mtime, same size+new mtime, new size+same mtime); after EVERY step the value of Storer.Index() is compared, field by field and including extensions, with an independent decode of the bytes currently on disk; additionally for every sequence the LAST go-git operation is re-run with each of its filesystem calls failing once (EIO on mutating calls, and on opens of worktree files) and the comparison is repeated after the failed call; distinct = distinct (sequence outcome, index content) pairs")
+	c.SetRule("one repository instance (its storage keeps the index cache) over mcfs; all sequences up to depth over 11 worktree operations and 3 external rewrites of .git/index (new size+new mtime, same size+new mtime, new size+same mtime); after EVERY step the value of Storer.Index() is compared, field by field and including extensions, with an independent decode of the bytes currently on disk; additionally for every sequence the LAST go-git operation is re-run with each of its filesystem calls failing once (EIO on mutating calls, and on opens of worktree files) and the comparison is repeated after the failed call, once with the cache warmed by a prior Index() and once cold (the failing operation performs the first index read of the instance); distinct = distinct (sequence outcome, index content) pairs")
 	c.Assume("rewrites that change neither size nor mtime are outside the statement; Index.ModTime (in-memory stamp) is excluded from the comparison; mcfs clock ticks per mutating call")
 	seqs := fw.Seqs(len(ops), depth)
 	var states, trans atomic.Int64
@@ -267,13 +267,18 @@ func runC20(c *fw.Ctx) {
 			run(s, last)
 			return n
 		}()
-		for f := 0; f < count; f++ {
+		for f2 := 0; f2 < 2*count; f2++ {
+			f, cold := f2/2, f2%2 == 1
 			s := newSys()
-			s.compare()
+			if !cold {
+				s.compare()
+			}
 			for _, k := range seq[:len(seq)-1] {
 				run(s, ops[k])
 			}
-			s.compare() // cache holds the pre-state
+			if !cold {
+				s.compare() // cache holds the pre-state
+			} // cold: the failing operation's own index read is the cache miss that fills the cache
 			n := 0
 			var site string
 			s.w.SetHook(func(op *mcfs.Op) error {
